@@ -15,11 +15,23 @@ import (
 // DISCONNECTED placement), C05 (tracker applied before user handlers), C06
 // (lifecycle events exactly once) and C16 (misbehaving handlers).
 
-var vScript = []string{
-	":srv 001 me2 :Welcome",
-	":me2!i@h JOIN #c",
-	":u!i@h JOIN #c",
-	":u!i@h PRIVMSG #c :hi",
+// The script: the welcome changes the nick, the client joins a channel, another
+// user joins it and talks. The new nick's last byte, the channel name and the
+// other user's nick are symbolic.
+func vMakeScript() (script []string, nick, channel, user string) {
+	nb, cb, ub := vStr("s-nick", 1), vStr("s-chan", 1), vStr("s-user", 1)
+	for _, b := range []byte{nb[0], cb[0], ub[0]} {
+		vAssume(b < 0x80 && b != 0 && b != ' ' && b-9 >= 5 && b != ':' && b != '!' && b != '@' && b != '#' && b != '&' && b != ',' && b != '*')
+	}
+	nick, channel, user = "me"+nb, "#"+cb, "u"+ub
+	vAssume(user != nick)
+	script = []string{
+		":srv 001 " + nick + " :Welcome",
+		":" + nick + "!i@h JOIN " + channel,
+		":" + user + "!i@h JOIN " + channel,
+		":" + user + "!i@h PRIVMSG " + channel + " :hi",
+	}
+	return
 }
 
 type vSess struct {
@@ -40,12 +52,14 @@ type vSess struct {
 	panics     bool
 	never      chan struct{}
 	gate       chan struct{}
+	script     []string
+	nick, channel, user string
 	tseq, tid, tbeh int // the one handler invocation that misbehaves (yields mid-way / panics / blocks)
 }
 
-func vSeqOf(l *Line) int {
-	for i, s := range vScript {
-		if l.Raw == s {
+func (s *vSess) seqOf(l *Line) int {
+	for i, x := range s.script {
+		if l.Raw == x {
 			return i
 		}
 	}
@@ -56,11 +70,11 @@ func vSeqOf(l *Line) int {
 func (s *vSess) applied(seq int) bool {
 	switch seq {
 	case 0:
-		return s.conn.Me().Nick == "me2"
+		return s.conn.Me().Nick == s.nick
 	case 1:
-		return s.conn.st.GetChannel("#c") != nil
+		return s.conn.st.GetChannel(s.channel) != nil
 	case 2:
-		return s.conn.st.GetNick("u") != nil
+		return s.conn.st.GetNick(s.user) != nil
 	}
 	return true
 }
@@ -77,7 +91,7 @@ func (s *vSess) anyActive() bool {
 // handler builds user handler number id; fg tells whether it is a foreground one.
 func (s *vSess) handler(id int, fg bool) HandlerFunc {
 	return func(c *Conn, l *Line) {
-		seq := vSeqOf(l)
+		seq := s.seqOf(l)
 		vAssert(seq >= 0, "handler-got-a-script-line")
 		if seq < 0 {
 			return
@@ -145,6 +159,8 @@ func VerifSession() {
 	vYieldKinds(vParamKinds())
 	n := vParam("N", 3)
 	s := &vSess{n: n, activeFG: map[int]int{}, entered: map[[2]int]int{}, track: vParam("TRACK", 1) == 1, panics: vParam("PANICS", 0) == 1, never: make(chan struct{}), gate: make(chan struct{})}
+	s.script, s.nick, s.channel, s.user = vMakeScript()
+	vScript := s.script
 	s.tseq, s.tid, s.tbeh = vLen("tseq", 0, n-1), vLen("tid", 0, 2), vLen("tbeh", 0, 3)
 	gated := s.tbeh == 3 && s.tid < 2
 	stream := ""
@@ -194,7 +210,7 @@ func VerifSession() {
 	conn.HandleFunc(CONNECTED, func(c *Conn, l *Line) {
 		s.mu.Lock()
 		s.connEnter++
-		vAssert(c.Me().Nick == "me2", "CONNECTED-after-welcome-applied")
+		vAssert(c.Me().Nick == s.nick, "CONNECTED-after-welcome-applied")
 		vAssert(s.lastSeq == 0, "CONNECTED-before-any-later-line")
 		s.mu.Unlock()
 		vYield()
